@@ -1008,4 +1008,4 @@ def run(ctx, R):
     n15 = C.reuse_obligations(ctx, R, c13.r137, 'R3.15')
     R.count('R3.15', n15, 1)
     n16 = C.reuse_obligations(ctx, R, c13.r139, 'R3.16')
-    R.count('R3.16', n16, 2)
+    R.count('R3.16', n16, 1)
